@@ -333,3 +333,6 @@ M("C10", "for-ast-fields-swapped", ASTN, "        self.min_value = min_value\n  
 M("C03", "write-block-args-swapped", PROG, "        if len(current_block) > 0:\n            writer.write_block(current_block, current_block_addr)\n\n    def assemble_string", "        if len(current_block) > 0:\n            writer.write_block(current_block_addr, current_block)\n\n    def assemble_string", "C03.R")
 M("C09", "macro-ast-fields-swapped", ASTN, "        self.name = name\n        self.args = args\n        self.block = block", "        self.name = name\n        self.args = block\n        self.block = args", "C09.RB")
 M("C13", "ips-ast-fields-swapped", ASTN, "        self.file_path = file_path\n        self.expression = expression", "        self.file_path = expression\n        self.expression = file_path", "C13.R")
+M("C19", "shared-macro-table-passed-down", CG, "    macro_definitions: MacroDefinitions = {}\n    return _code_gen(ast_nodes, resolver, macro_definitions)", "    return _code_gen(ast_nodes, resolver, _SHARED)", "C19.R5",
+  edits=[(CG, "    macro_definitions: MacroDefinitions = {}\n    return _code_gen(ast_nodes, resolver, macro_definitions)", "    return _code_gen(ast_nodes, resolver, _SHARED)"),
+         (CG, "def code_gen(ast_nodes: list[AstNode], resolver: Resolver) -> GenNodes:", "_SHARED: MacroDefinitions = {}\n\n\ndef code_gen(ast_nodes: list[AstNode], resolver: Resolver) -> GenNodes:")])
